@@ -790,19 +790,23 @@ Proof.
       now rewrite nth_firstn_lt.
     + rewrite (emit_rows_nth _ _ (g_start F)) by (rewrite ?firstn_length; cbn; auto; lia).
       rewrite !nth_firstn_lt by assumption. reflexivity.
-  - rewrite (emit_rows_nth _ _ (g_start F)) by (rewrite ?firstn_length; cbn; auto; lia).
+  - cbn [fst]. rewrite (emit_rows_nth _ _ (g_start F)) by (rewrite ?firstn_length; cbn; auto; lia).
     now rewrite nth_firstn_lt.
 Qed.
 
 (* ---- convert_to_state: row i is the state a fresh accumulator emits after seeing row i alone *)
+(* a family without NullState (COUNT) emits its starting cell for a group that saw nothing *)
+Definition untracked_ok (F : gfam) : Prop := g_tracks F = false -> g_null_wire F = g_wire F (g_start F).
 Theorem convert_to_state_eq (F : gfam) (v : option Z) (fi : option (option bool)) :
+  untracked_ok F ->
   let filt := option_map (fun x => [x]) fi in
   gconvert F [v] filt = fst (gstate_rows F (gupdate F (ginit F) [v] [O] filt 1) None).
 Proof.
+  intros Hu.
   unfold gconvert, gstate_rows, gemit, gupdate, ginit, mk_rows. cbn [map g_cells g_seen take_needed].
   destruct fi as [[[|]|]|]; destruct v as [z|]; cbn [option_map map combine];
     unfold resize, apply_rows; cbn [length Nat.sub repeat app firstn fold_left nth upd_nth];
-    destruct (g_tracks F) eqn:Et; cbn; rewrite ?Et; try reflexivity.
+    destruct (g_tracks F) eqn:Et; cbn; rewrite ?Et; try reflexivity; now rewrite (Hu Et).
 Qed.
 Lemma gconvert_rowwise (F : gfam) v vs f fs :
   gconvert F (v :: vs) (Some (f :: fs)) = gconvert F [v] (Some [f]) ++ gconvert F vs (Some fs).
@@ -810,3 +814,37 @@ Proof. reflexivity. Qed.
 Lemma gconvert_rowwise_nofilter (F : gfam) v vs :
   gconvert F (v :: vs) None = gconvert F [v] None ++ gconvert F vs None.
 Proof. reflexivity. Qed.
+
+(* ---- one update_batch of the primitive family = the scalar optional-monoid update of every group *)
+Lemma somes_map_Some {A} (l : list A) : somes (map Some l) = l.
+Proof. induction l; cbn; [reflexivity|]. unfold somes in IHl. now rewrite IHl. Qed.
+Theorem prim_groups_eq_scalar (f : Z -> Z -> Z) (start : Z) (D : Z -> Prop) st vals gidx filt total g :
+  (forall a b c, f (f a b) c = f a (f b c)) ->
+  (forall x, D x -> f start x = x) ->
+  let F := prim_fam f start in
+  let rows := mk_rows vals gidx filt in
+  gwf F st total -> rows_below total rows -> covers (g_seen st) total rows -> (g < total)%nat ->
+  Forall D (live_vals g rows) ->
+  (snd (gview F st g) = false -> fst (gview F st g) = start) ->
+  to_opt (gview F (gupdate F st vals gidx filt total) g)
+  = og_update f (to_opt (gview F st g)) (map Some (live_vals g rows)).
+Proof.
+  intros Ha Hs F rows. subst F rows. intros Hwf Hb Hc Hg HD Hinv.
+  rewrite gupdate_view by assumption. cbn [g_tracks prim_fam g_step].
+  unfold og_update. rewrite somes_map_Some. unfold has_live.
+  destruct (gview (prim_fam f start) st g) as [c sn] eqn:Ev. cbn [fst snd] in *.
+  apply (cell_fold_scalar f start D); assumption.
+Qed.
+
+Lemma untracked_ok_all i : untracked_ok (fam_of i).
+Proof.
+  unfold fam_of. repeat (destruct i as [|i|]; try (intros H; try discriminate H; reflexivity)).
+Qed.
+
+(* merge order matters for FIRST_VALUE / LAST_VALUE *)
+Lemma first_last_order_sensitive :
+  a_eval (first_acc false) (a_merge (first_acc false) (a_init _) [[RInt 1; RBool true]; [RInt 2; RBool true]])
+  <> a_eval (first_acc false) (a_merge (first_acc false) (a_init _) [[RInt 2; RBool true]; [RInt 1; RBool true]])
+  /\ a_eval (last_acc false) (a_merge (last_acc false) (a_init _) [[RInt 1; RBool true]; [RInt 2; RBool true]])
+  <> a_eval (last_acc false) (a_merge (last_acc false) (a_init _) [[RInt 2; RBool true]; [RInt 1; RBool true]]).
+Proof. split; vm_compute; discriminate. Qed.
